@@ -395,3 +395,23 @@ refactor("R12-2", ["C08", "C09"])
 refactor("R12-3", ["C16", "C17", "C10"])
 refactor("R12-4", ["C08", "C09", "C16"])
 refactor("R12-5", ["C08", "C10", "C17"])
+
+# breaks planted in round-4 refactored code
+brk_on("R10-1", "on-R10-1-geometry-method-loses-upper-bound", ["C17"],
+    [("jpeg/lossless14sv1/encoder.go", "	if enc.width <= 0 || enc.height <= 0 || enc.width > fieldMax || enc.height > fieldMax {", "	if enc.width <= 0 || enc.height <= 0 {")],
+    "NARROW", "writeSOF3")
+brk_on("R9-4", "on-R9-4-sticky-reader-loses-tile-size-check", ["C08"],
+    [("jpeg2000/codestream/parser.go", "	if siz.XTsiz == 0 || siz.YTsiz == 0 {\n		return nil, fmt.Errorf(\"invalid tile size in SIZ: %dx%d\", siz.XTsiz, siz.YTsiz)\n	}\n", "")],
+    "DIV", "NewTileDecoder")
+brk_on("R10-2", "on-R10-2-error-chain-skips-eoi-on-large-scan", ["C16"],
+    [("jpegls/lossless/encoder.go", "	if err == nil {\n		err = writer.WriteMarker(standard.MarkerEOI)\n	}\n", "	if err == nil && len(pixelData) < 1<<30 {\n		err = writer.WriteMarker(standard.MarkerEOI)\n	}\n")],
+    "ORDER-FRAMING", "encode")
+brk_on("R11-3", "on-R11-3-stream-state-no-longer-reset", ["C10"],
+    [("jpeg2000/decoder.go", "	d.streamDerived = streamDerived{}\n", "")],
+    "CARRY", "Decoder")
+brk_on("R12-1", "on-R12-1-frame-header-cursor-asks-for-one-byte-less", ["C08"],
+    [("jpeg/lossless14sv1/decoder.go", "	fixed, ok := seg.Next(frameHeaderFixedLen)", "	fixed, ok := seg.Next(frameHeaderFixedLen - 1)")],
+    "SLICE-CONST", "readFrameHeader")
+brk_on("R10-4", "on-R10-4-limit-helper-writes-unconditionally", ["C18"],
+    [("jpeg2000/htj2k/parameters.go", "	switch {\n	case *field < lowest:\n		*field = lowest\n	case *field > highest:\n		*field = highest\n	}", "	*field = max(lowest, min(*field, highest))")],
+    "PARAMS-RO", "limitTo")
